@@ -150,6 +150,16 @@ class DocGen:
             return Mark.none
         ms = Mark.none
         names = list(self.schema.marks)
+        if rng.random() < 0.12:
+            # every non-inclusive mark the parent allows, together (marks-at-position strips them one after
+            # the other at the end of the marked text)
+            for nm in names:
+                mt = self.schema.marks[nm]
+                if mt.spec.get("inclusive") is False and parent_type.allows_mark_type(mt):
+                    at = {an: ("foo" if an != "id" else 1) for an, a in mt.attrs.items() if not a.has_default}
+                    ms = mt.create(at or None).add_to_set(ms)
+            if ms:
+                return ms
         for _ in range(rng.randint(1, 3)):
             mt = self.schema.marks[rng.choice(names)]
             if not parent_type.allows_mark_type(mt):
